@@ -165,3 +165,48 @@ func Partition(n, k, at, length, steps int) *Scenario {
 	seed = append(seed, FairSeed(seq(n), steps, 4)...)
 	return &Scenario{Name: fmt.Sprintf("partition%d-%d", n, k), Cfg: sim.Config{N: n}, Seed: seed}
 }
+
+// Dups: the static scenario in which every submission has the same content
+// ("dup"), every third one is made twice in a row at the same node (one event
+// then carries the same bytes twice) and every fifth one is also made at the
+// next node (two events of one round carry the same bytes).
+func Dups(n, steps int) *Scenario {
+	var seed []Action
+	k := 0
+	for _, a := range FairSeed(seq(n), steps, 3) {
+		if a.K != "T" {
+			seed = append(seed, a)
+			continue
+		}
+		seed = append(seed, Action{K: "TD", A: a.A})
+		if k%3 == 0 {
+			seed = append(seed, Action{K: "TD", A: a.A})
+		}
+		if k%5 == 0 {
+			seed = append(seed, Action{K: "TD", A: (a.A + 1) % n})
+		}
+		k++
+	}
+	return &Scenario{Name: fmt.Sprintf("dups%d", n), Cfg: sim.Config{N: n}, Seed: seed}
+}
+
+// Slow: n validators; validator n-1 takes only every `period`-th of its turns
+// in the round-robin (those with turn%period == offset) while the others keep
+// gossiping with it: its witnesses appear late in every round and elections
+// of different rounds finish out of order.
+func Slow(n, period, offset, steps int) *Scenario {
+	var seed []Action
+	turn := 0
+	for _, a := range FairSeed(seq(n), steps, 4) {
+		if a.A == n-1 {
+			if a.K == "G" {
+				turn++
+			}
+			if turn%period != offset {
+				continue
+			}
+		}
+		seed = append(seed, a)
+	}
+	return &Scenario{Name: fmt.Sprintf("slow%d", n), Cfg: sim.Config{N: n}, Seed: seed}
+}
